@@ -85,5 +85,23 @@ fn k10_percentile_exact_len1() { percentile_harness(1); }
 #[kani::unwind(5)]
 fn k10_percentile_exact_len2() { percentile_harness(2); }
 
+// C12: "the response equals an independent computation .. and does not depend on how the documents are spread across
+// segments": whatever order the exact sample is held in (a merged sample is the concatenation of the segments' samples),
+// the 0th percentile is the smallest value and the 100th the largest
+#[kani::proof]
+#[kani::unwind(5)]
+fn k10_percentile_exact_len2_extremes_any_order() {
+  let vals: [f64; 2] = kani::any();
+  kani::assume(vals[0].is_finite() && vals[1].is_finite());
+  let mut st = QuantileState { values: vals[..2].to_vec(), digest: None, count: 2 };
+  let lo = st.percentile(0.0);
+  let hi = st.percentile(100.0);
+  let min = if vals[0] <= vals[1] { vals[0] } else { vals[1] };
+  let max = if vals[0] <= vals[1] { vals[1] } else { vals[0] };
+  assert!(lo == min);
+  assert!(hi == max);
+  kani::cover!(vals[0] > vals[1]);
+}
+
 // concrete-playback tests (empty unless a failed harness is being replayed)
 include!("/verif/.cache/gen/playback_aggs.rs");
